@@ -125,6 +125,7 @@ Definition rk4_events : list event :=
    EAssign "B" "[1.0 / 6.0, 1.0 / 3.0, 1.0 / 3.0, 1.0 / 6.0]";
    EAssign "qpos_t0" "wp.clone(d.qpos)"; EAssign "qvel_t0" "wp.clone(d.qvel)";
    EAssign "time_t0" "wp.clone(d.time)";
+   EAssign "sensordata_t0" "wp.clone(d.sensordata)";   (* save/restore frame; not integration state *)
    EAssign "qvel_rk" "wp.zeros((d.nworld, m.nv), dtype=float)";
    EAssign "qacc_rk" "wp.zeros((d.nworld, m.nv), dtype=float)";
    EIf "m.na"
@@ -135,7 +136,7 @@ Definition rk4_events : list event :=
         ([EAssign "(a, b)" "(float(A[i]), B[i + 1])"] ++ rk_perturb_events
          ++ [ELaunch "forward._rk_stage_time" [] ["m.opt.timestep"; "time_t0"; "a"] ["d.time"];
              EExt "forward.forward" ["m"; "d"]] ++ rk_acc_events "b");
-      ECopy "d.qpos" "qpos_t0"; ECopy "d.qvel" "qvel_t0"; ECopy "d.time" "time_t0";
+      ECopy "d.qpos" "qpos_t0"; ECopy "d.qvel" "qvel_t0"; ECopy "d.time" "time_t0"; ECopy "d.sensordata" "sensordata_t0";
       EIf "m.na" [ECopy "d.act" "act_t0"; ECopy "d.act_dot" "act_dot_rk"] [];
       EExt "forward._advance" ["m"; "d"; "qacc_rk"; "qvel_rk"]].
 
